@@ -90,6 +90,7 @@ impl IndicatorConfig for TrendStrengthIndex {
 
 	fn validate(&self) -> bool {
 		self.period > 1
+			&& self.period < PeriodType::MAX
 			&& self.zone >= 0.0
 			&& self.zone < 1.0
 			&& self.reverse_offset > 0
